@@ -415,10 +415,7 @@ class CouplingGraph(Collection[tuple[int, int]]):
                 'Keys of renumbering must match qudits in location',
             )
         # Check if values of renumbering form a permutation
-        if not (
-            min(renumbering.values()) == 0
-            and max(renumbering.values()) == len(location) - 1
-        ):
+        if sorted(renumbering.values()) != list(range(len(location))):
             raise ValueError(
                 f'Keys of renumbering do not form a permutation of'
                 f' [0, {len(location)})',
